@@ -69,6 +69,7 @@ ApplyF(ms, a) ==
     [] a.op = "CompareAll" -> DoCompareAll(ms, a)
     [] a.op = "CopyRec"    -> DoCopyRec(ms, a)
     [] a.op \in {"Graph", "Dot"} -> DoExport(ms, [h |-> a.h, seq |-> <<"graph">>])
+    [] a.op \in {"Load", "Corpus"} -> Ok(ms, NoQN)
     [] a.op = "RT"         -> Ok(ms, NoQN)       \* serialisation does not change the state (C13)
     [] a.op = "Export"     -> DoExport(ms, a)
     [] a.op = "IO"         -> Ok(ms, NoQN)       \* the stream side is IO.tla
